@@ -64,6 +64,7 @@ var envSigs = map[string][2][]byte{
 	"closeonly": {{i32}, nil},
 	"reenter":   {{i32}, {i32}},
 	"memgrow":   {{i32}, {i32}},
+	"peek":      {{i32}, {i32}},
 	"pair":      {{i32}, {i32, i64}},
 	"ext":       {{wb.ExternRef}, {wb.ExternRef}},
 }
@@ -438,6 +439,47 @@ func memGrowProg(min uint32, max int64) *program {
 	return b.done()
 }
 
+// memGrowStore: one activation stores, grows the memory (so that the buffer moves whenever its capacity is
+// below the declared maximum), stores and loads again; later calls and the host (api.Memory) read the same
+// addresses. The growth happens directly, inside a callee, or inside a host function.
+func memGrowStore(k int) *program {
+	b := newP("memgrow", fmt.Sprintf("mem-growstore-%d", k), "memgrow", "peek")
+	b.p.Tag = "store-grow-store"
+	b.mem(1, int64(4+k))
+	growDirect := func(a *wb.Asm) *wb.Asm { return a.I32Const(1).MemoryGrow().Drop() }
+	callee := b.fn(nil, nil, nil, asm().I32Const(1).MemoryGrow().Drop())
+	growCallee := func(a *wb.Asm) *wb.Asm { return a.Call(callee) }
+	growHost := func(a *wb.Asm) *wb.Asm { return a.I32Const(1).Call(b.env["memgrow"]).Drop() }
+	for _, v := range []struct {
+		name string
+		grow func(*wb.Asm) *wb.Asm
+	}{{"go", growDirect}, {"gocallee", growCallee}, {"gohost", growHost}} {
+		a := asm().LocalGet(0).LocalGet(2).Mem(0x36, 2, 0)
+		a = v.grow(a)
+		a.LocalGet(1).LocalGet(3).Mem(0x36, 2, 0).
+			LocalGet(0).Mem(0x28, 2, 0).Op(0xad).I64Const(32).Op(0x86).
+			LocalGet(1).Mem(0x28, 2, 0).Op(0xad).Op(0x84)
+		b.exp(v.name, []byte{i32, i32, i32, i32}, []byte{i64}, nil, a)
+	}
+	b.exp("rd", []byte{i32}, []byte{i32}, nil, asm().LocalGet(0).Mem(0x28, 2, 0))
+	b.exp("hostrd", []byte{i32}, []byte{i32}, nil, asm().LocalGet(0).Call(b.env["peek"]))
+	b.exp("size", nil, []byte{i32}, nil, asm().MemorySize())
+	base := uint64(8 + 64*k)
+	step := func(fn string, a, bb, v, w uint64) {
+		b.call(fn, a, bb, v, w)
+		b.call("rd", a)
+		b.call("rd", bb)
+		b.call("hostrd", a)
+		b.call("hostrd", bb)
+		b.call("size")
+	}
+	step("go", base, base, 7, 42)           // the same address before and after the growth
+	step("gocallee", base+8, base, 9, 43)   // overwrites an earlier cell after the growth
+	step("gohost", base+16, base+8, 11, 44) // growth by the embedder during the call
+	step("go", base+24, base+16, 13, 45)    // growth refused once the maximum is reached
+	return b.done()
+}
+
 func famMem(th bool) []*program {
 	type mm struct {
 		min uint32
@@ -470,6 +512,14 @@ func famMem(th bool) []*program {
 			p.Order = true
 		}
 		ps = append(ps, p)
+	}
+	gs := memGrowStore(0)
+	gs.Order = true
+	ps = append(ps, gs)
+	if th {
+		for k := 1; k < 4; k++ {
+			ps = append(ps, memGrowStore(k))
+		}
 	}
 	return ps
 }
